@@ -107,6 +107,24 @@ def continue_trajectory(env, np_seed, plan_seed, n_steps):
     return m.hexdigest()[:20]
 
 
+def continue_trajectory_noseed(env, plan_seed, n_steps):
+    """Continuation under whatever state the global generator is in."""
+    import numpy as np
+    rng = random.Random(plan_seed)
+    m = hashlib.sha256()
+    flat = env.flat_actions
+    nvec = None if flat else [int(v) for v in env.action_space.nvec]
+    for _ in range(n_steps):
+        a = rng.randrange(env.action_space.n) if flat else \
+            [rng.randrange(v) for v in nvec]
+        obs, r, term, trunc, info = env.step(a)
+        m.update(np.asarray(obs).tobytes())
+        m.update(repr((float(r).hex(), bool(term), bool(trunc))).encode())
+        if term or trunc:
+            env.reset()
+    return m.hexdigest()[:20]
+
+
 def planner_trajectory(env, np_seed, plan_seed, n_steps):
     """Look-ahead from a kept checkpoint: a chain of generative steps that
     starts at the state object the environment holds after reset.  Every
@@ -240,6 +258,31 @@ def run_job(job):
             env2.reset()
             out.append(trajectory(env2, job["np_seed"], job["plan_seed"],
                                   job["steps"]))
+        if len(set(out)) == 1 and job.get("reset_seed") is None:
+            # a forked worker process: the generator is seeded in the
+            # parent, the trajectory is played in the child (and in the
+            # parent afterwards) - same seed, same trajectory
+            import os
+            import numpy as np
+            env.reset()
+            r, w = os.pipe()
+            np.random.seed(job["np_seed"])
+            pid = os.fork()
+            if pid == 0:
+                try:
+                    os.close(r)
+                    d = continue_trajectory_noseed(env, job["plan_seed"], 40)
+                    os.write(w, d.encode())
+                finally:
+                    os._exit(0)
+            os.close(w)
+            child = os.read(r, 100).decode()
+            os.close(r)
+            os.waitpid(pid, 0)
+            mine = continue_trajectory_noseed(env, job["plan_seed"], 40)
+            if child != mine:
+                out.append("FORKED-WORKER-DIFFERS:" + child + "/" + mine)
+                return out
         if len(set(out)) == 1:
             # mid-episode copies: play part of an episode, copy the
             # environment (deep copy and pickle round trip), and continue
